@@ -599,6 +599,27 @@ def shutdown_stream(_=None):
                 loop.close()
             except Exception:  # noqa
                 pass
+    # a coroutine FACTORY that fails when it is called (before there is a coroutine): the returned future ends with that exception
+    loop = asyncio.new_event_loop()
+    asyncio.set_event_loop(loop)
+    try:
+        def factory():
+            raise ValueError('no coroutine')
+        fut = futures.create_task(factory, loop)
+        kiwi = communications.plum_to_kiwi_future(fut)
+        for _ in range(6):
+            loop.call_soon(loop.stop)
+            loop.run_forever()
+        got = ('exc:' + type(fut.exception()).__name__) if (fut.done() and not fut.cancelled() and fut.exception() is not None) \
+            else 'cancelled' if fut.cancelled() else 'done' if fut.done() else 'pending'
+        gotm = ('exc:' + type(kiwi.exception()).__name__) if (kiwi.done() and not kiwi.cancelled() and kiwi.exception() is not None) \
+            else 'pending' if not kiwi.done() else 'other'
+        if got != 'exc:ValueError' or gotm != 'exc:ValueError':
+            fails.append(dict(signature='task-wrong-outcome', clause="the future returned for a scheduled coroutine ends with the "
+                              "coroutine's result or exception (here: the factory raised when called)",
+                              detail=dict(future=got, mirror=gotm), case=dict(fam='shutdown', groups=[])))
+    finally:
+        loop.close()
     asyncio.set_event_loop(None)
     return fails
 
